@@ -126,6 +126,14 @@ Proof.
   unfold jknown. intros -> Hi -> Hs. destruct (jobs s !! t_job p); [|auto]. apply jmember_static; assumption.
 Qed.
 
+Lemma jknown_jv s s' p : jv s = jv s' -> jknown s p -> jknown s' p.
+Proof.
+  intros H. unfold jknown.
+  assert (E : (jview <$> jobs s !! t_job p) = (jview <$> jobs s' !! t_job p)) by (unfold jv in H; rewrite <- !lookup_fmap, H; reflexivity).
+  destruct (jobs s !! t_job p) as [j|], (jobs s' !! t_job p) as [j'|]; simpl in E; try discriminate; auto.
+  apply jmember_view. congruence.
+Qed.
+
 (* AddTask then RemoveTask of the same task gives the node's skeleton back *)
 Lemma nview_add_remove eps n p n' p' :
   node_add eps n p = inl (n', p') -> nview (node_remove n' (t_id p)) = nview n.
@@ -461,7 +469,7 @@ Proof.
   - apply share_same_refl.
 Qed.
 
-Theorem failed_ssn_place_no_trace eps jr s k p nid :
+Theorem failed_ssn_place_no_trace_cause eps jr s k p nid :
   sess_ok s -> heap s !! t_id p = Some p -> t_status p = Pending -> t_node p = None -> jknown s p ->
   (jobs s !! t_job p = None \/ nodes s !! nid = None \/
    exists n e, nodes s !! nid = Some n /\ node_add eps n (placed_obj s k p nid) = inr e) ->
@@ -649,4 +657,83 @@ Proof.
     + symmetry. unfold nv4 at 1. exact Hd.
   - simpl. rewrite Hs4. simpl. rewrite Hs1, Hjob4, Hjob1, Hreq4, Hreq1, lookup_insert, insert_insert. simpl.
     apply share_sub_add. exact Hcov.
+Qed.
+
+(* ---------- 4c. Session.Allocate / Pipeline: ANY error leaves no trace ---------- *)
+
+Lemma job_update_index h j p st :
+  h !! t_id p = Some p -> t_id p ∈ j_tasks j ->
+  j_index (fst (job_update h j p st)) = idx_add (idx_del (j_index j) (t_status p) (t_id p)) st (t_id p).
+Proof.
+  intros Hl Hin. unfold job_update. rewrite bool_decide_eq_true_2 by exact Hin. rewrite Hl. reflexivity.
+Qed.
+
+(* Session.Allocate / Pipeline on a placeable task whose job holds no other Allocated task (then
+   the dispatch loop only concerns the task itself): whatever the reason of the error -- unknown
+   job, unknown node, node refusing the task, dispatch (AddBindTask) refused, fix c8b10ae -- the
+   session is sess_eqv to the one before the call and nothing reached binder, evictor or a
+   statement *)
+Theorem failed_ssn_place_no_trace eps jr s k p nid :
+  sess_ok s -> placeable s p nid ->
+  (forall j, jobs s !! t_job p = Some j -> idx_set (j_index j) Allocated = ∅) ->
+  let r := ssn_place_with eps jr s k (t_id p) nid in
+  snd r = RErr ->
+  sess_eqv s (fst r) /\ binds (fst r) = binds s /\ evicts (fst r) = evicts s /\ stmts (fst r) = stmts s.
+Proof.
+  intros Hok Hpl Hidx. cbv zeta. intros Hres.
+  pose proof Hpl as (Hl & Hst & Hnd & Hjk & Hoff).
+  destruct (jobs s !! t_job p) as [j|] eqn:Ej.
+  2: { destruct (failed_ssn_place_no_trace_cause eps jr s k p nid Hok Hl Hst Hnd Hjk (or_introl Ej)) as (_ & A & B & C & D & _). auto. }
+  destruct (nodes s !! nid) as [n|] eqn:En.
+  2: { destruct (failed_ssn_place_no_trace_cause eps jr s k p nid Hok Hl Hst Hnd Hjk (or_intror (or_introl En))) as (_ & A & B & C & D & _). auto. }
+  destruct (node_add eps n (placed_obj s k p nid)) as [[n' q]|e] eqn:Ea.
+  2: { destruct (failed_ssn_place_no_trace_cause eps jr s k p nid Hok Hl Hst Hnd Hjk) as (_ & A & B & C & D & _); [right; right; eauto|auto]. }
+  specialize (Hidx j eq_refl).
+  pose proof Hok as (Hinv & Hw & Hsv). pose proof Hinv as (Hh & Hjobs & Hnodes). destruct (Hnodes _ _ En) as [Hnid _].
+  assert (Hinv' : ledger_inv (fst (ssn_place_with eps jr s k (t_id p) nid)))
+    by exact (proj1 (good_ssn_place eps _ jr s k (t_id p) nid (good_init s Hinv Hw Hsv))).
+  assert (Hm : jmember j p) by (unfold jknown in Hjk; rewrite Ej in Hjk; exact Hjk).
+  remember (ssn_place_with eps jr s k (t_id p) nid) as r eqn:Er.
+  unfold ssn_place_with in Er. rewrite Hl in Er. fold (place_status k) in Er.
+  unfold ssn_update_status at 1 in Er. rewrite Ej in Er.
+  destruct (job_update_member (heap s) j p (place_status k) Hl Hm) as (j1 & Eju & Hjv1).
+  pose proof (job_update_index (heap s) j p (place_status k) Hl (proj1 Hm)) as Hix1. rewrite Eju in Hix1. cbn [fst] in Hix1.
+  rewrite Eju in Er. cbv beta iota zeta in Er. cbn [negb] in Er.
+  set (p1 := set_status p (place_status k)) in *. set (p2 := set_node p1 (Some nid)) in *.
+  set (s1 := put_task (upd_jobs s (<[t_job p := j1]> (jobs s))) p1) in *. set (s2 := put_task s1 p2) in *.
+  change (nodes s2) with (nodes s) in Er. rewrite En in Er.
+  assert (Hp2 : placed_obj s k p nid = p2).
+  { unfold placed_obj. rewrite Ej, bool_decide_eq_true_2 by eauto. reflexivity. }
+  rewrite Hp2 in Ea. rewrite Ea in Er.
+  destruct (node_add_spec _ _ _ _ _ Ea) as (Hq & _). rewrite Hnid in Hq.
+  rewrite (set_node_id p2 (Some nid) eq_refl) in Hq. subst q.
+  unfold h_alloc in Er. cbv beta iota zeta in Er.
+  match type of Er with context [upd_handlers ?a ?b ?c] => set (s4 := upd_handlers a b c) in * end.
+  assert (Hjv4 : jv s4 = jv s) by exact (jv_insert_same s _ j j1 Ej Hjv1).
+  assert (Hps : placed_state eps s p (placed_obj s k p nid) nid s4).
+  { rewrite Hp2. split; [|split; [|split; [|split]]].
+    - unfold s4, s2, s1. simpl. rewrite !insert_insert. reflexivity.
+    - exact Hjv4.
+    - intros q0. apply jknown_jv. symmetry. exact Hjv4.
+    - right. exists n, n', p2. split; [exact En|]. split; [exact Ea|reflexivity].
+    - reflexivity. }
+  assert (Hl4 : heap s4 !! t_id p = Some p2) by (destruct Hps as (-> & _); rewrite Hp2; apply lookup_insert).
+  destruct k; try (subst r; discriminate Hres).
+  change (jobs s4) with (<[t_job p := j1]> (jobs s)) in Er. rewrite lookup_insert in Er.
+  destruct (jr s4 j1); [|subst r; discriminate Hres].
+  assert (Hel : elements (default ∅ (j_index j1 !! skey Allocated)) = [t_id p]).
+  { change (default ∅ (j_index j1 !! skey Allocated)) with (idx_set (j_index j1) Allocated).
+    rewrite Hix1, idx_set_add. simpl. destruct (decide (Allocated = Allocated)) as [_|Hne]; [|congruence].
+    rewrite idx_set_del, Hst. destruct (decide (Pending = Allocated)) as [Hne|_]; [discriminate|].
+    rewrite Hidx, (right_id_L ∅ (∪)). apply elements_singleton. }
+  rewrite Hel in Er. cbn [dispatch_all] in Er. unfold dispatch in Er. rewrite Hl4 in Er.
+  destruct (bool_decide (t_id p ∈ refuse_bind s4)) eqn:Hrb.
+  - cbv beta iota zeta in Er. rewrite Hl4 in Er. subst r. cbn [fst snd] in *.
+    destruct (undo_place eps s KAllocate p nid s4 Hl Hst Hnd Hjk (proj2 (proj2 (proj2 (proj2 Hpl)))) Hps) as (H1 & H2 & H3 & H4 & H5 & H6 & H7 & H8).
+    rewrite Hp2 in *.
+    split; [apply sk_sess_eqv; [exact Hinv|exact Hinv'|symmetry; exact H1|symmetry; exact H2|symmetry; exact H3|exact H4]|].
+    split; [rewrite H6; reflexivity|]. split; [rewrite H7; reflexivity|]. rewrite H5. reflexivity.
+  - unfold ssn_update_status in Er. cbn [jobs upd_logs] in Er.
+    change (jobs s4) with (<[t_job p := j1]> (jobs s)) in Er. change (t_job p2) with (t_job p) in Er. rewrite lookup_insert in Er.
+    destruct (job_update _ j1 p2 Binding) as [j2 q2]. cbv beta iota zeta in Er. subst r. discriminate Hres.
 Qed.
